@@ -170,11 +170,13 @@ pub fn run(tier: Tier, shard: Shard, stats: &mut Stats) {
     let mut case = 0u64;
     // {msg:...}, and the same through a custom key whose tracker writes the content
     let shared: std::sync::Arc<std::sync::Mutex<String>> = Default::default();
-    for key in ["msg", "ck"] {
+    for key in ["msg", "ck", "msg.styled"] {
     for &w in &widths {
         for align in ['<', '^', '>'] {
             for truncate in [false, true] {
-                let tpl = format!("|{{{key}:{}{}{}}}|", align, w, if truncate { "!" } else { "" });
+                // (a style suffix renders nothing here - colours are off - and leaves width, alignment and truncation alone)
+                let (k, suffix) = if key == "msg.styled" { ("msg", ".red/blue") } else { (key, "") };
+                let tpl = format!("|{{{k}:{}{}{}{suffix}}}|", align, w, if truncate { "!" } else { "" });
                 let cell = shared.clone();
                 let style = ProgressStyle::with_template(&tpl).unwrap().with_key("ck", move |_: &indicatif::ProgressState, w: &mut dyn std::fmt::Write| w.write_str(&cell.lock().unwrap()).unwrap());
                 let pb = bar_on(&catcher, Some(5), style);
@@ -190,7 +192,7 @@ pub fn run(tier: Tier, shard: Shard, stats: &mut Stats) {
                     stats.transitions += 1;
                     let content = text_of(c);
                     let r = catch(|| {
-                        if key == "msg" {
+                        if key != "ck" {
                             pb.set_message(content.clone());
                         } else {
                             *shared.lock().unwrap() = content.clone();
